@@ -232,6 +232,11 @@ class Ctx:
         self.t0 = time.time()
         self.max_keep = 40
 
+    def reseed(self, k):
+        """fresh random streams for an extra correspondence round (round k >= 1) of the same run"""
+        self.rng = random.Random(f"{self.prop}-{self.seed}-round{k}")
+        self.nprng = np.random.default_rng(int.from_bytes(f"{self.prop}-{self.seed}-round{k}".encode(), "little") % (2 ** 63))
+
     # -- bookkeeping -------------------------------------------------------------------------
     def branch(self, name, n=1):
         self.branches[name] = self.branches.get(name, 0) + n
